@@ -703,6 +703,22 @@ class Engine:
             loc = args[0][1]
             old_v = self.read_loc(path, loc)
             return [(old_v, None, [(loc, args[1])])]
+        m_ = re.search(r"(option::Option|result::Result)::<.*>::(unwrap_or|unwrap_or_default)$", nm)
+        if m_ and args:
+            # `x.unwrap_or(d)`: the payload if there is one, else d — a branch on the variant like `match`
+            v = args[0]
+            good = "Some" if "Option" in m_.group(1) else "Ok"
+            bad = "None" if good == "Some" else "Err"
+            d = args[1] if len(args) > 1 else ("app", "Default::default", ())
+            kv = self.known_variant(path, v)
+            if v[0] == "adt" and v[2] == good:
+                return [(v[3][0], None)]
+            if (v[0] == "adt" and v[2] == bad) or kv == bad:
+                return [(d, None)]
+            pay = ("field", ("downcast", v, good), "0")
+            if kv == good:
+                return [(pay, None)]
+            return [(d, [(("isvar", v, bad), True)]), (pay, [(("isvar", v, good), True)])]
         if re.search(r"mem::take::<.*>$", nm) and len(args) == 1 and args[0][0] == "ref":
             loc = args[0][1]
             old_v = self.read_loc(path, loc)
